@@ -77,25 +77,37 @@ static std::string read_record_and_truncate() {
     return s;
 }
 
-// returns 1 ok, 0 bad; note: 1 missing block, 2 value mismatch, 3 missing y line
+// The property only says "with the initial state logged"; the layout of the record is naunet's
+// business.  So: every non-zero initial value must appear as a number somewhere in what the
+// failing Solve wrote (7 significant digits are enough).  The initial values are distinct
+// multiples of dt, and differ from every partially advanced value unless no progress was made.
+// returns 1 ok, 0 bad; note: 1 nothing written, 2 a value is missing
 static int check_record(const std::string &rec, const std::vector<double> &y0, int *note) {
     *note = 0;
-    size_t p = rec.find("Initial condition");
-    if (p == std::string::npos) {
+    if (rec.empty()) {
         *note = 1;
         return 0;
     }
-    for (size_t i = 0; i < y0.size(); i++) {
-        char key[64];
-        snprintf(key, sizeof key, "    y[%zu] = ", i);
-        size_t q = rec.find(key, p);
-        if (q == std::string::npos) {
-            *note = 3;
-            return 0;
+    std::vector<double> nums;
+    const char *p = rec.c_str();
+    while (*p) {
+        if ((*p >= '0' && *p <= '9') || ((*p == '-' || *p == '+' || *p == '.') && p[1] >= '0' && p[1] <= '9')) {
+            char *end = NULL;
+            double v = strtod(p, &end);
+            if (end && end != p) {
+                nums.push_back(v);
+                p = end;
+                continue;
+            }
         }
-        double v = strtod(rec.c_str() + q + strlen(key), NULL);
-        double tol = 2e-7 * fabs(y0[i]) + 1e-300;
-        if (!(fabs(v - y0[i]) <= tol)) {
+        p++;
+    }
+    for (size_t i = 0; i < y0.size(); i++) {
+        if (y0[i] == 0.0) continue;
+        bool found = false;
+        double tol = 2e-7 * fabs(y0[i]);
+        for (size_t k = 0; k < nums.size() && !found; k++) found = fabs(nums[k] - y0[i]) <= tol;
+        if (!found) {
             *note = 2;
             return 0;
         }
